@@ -55,6 +55,7 @@ func (m *CPU) Context() *risc.Context {
 func (m *CPU) Run(app risc.Application) (int, error) {
 	cycle := 0
 	for {
+		m.ctx.VerifTick()
 		cycle++
 		if m.ctx.Debug {
 			fmt.Printf("%d\n", int32(cycle))
@@ -82,6 +83,7 @@ func (m *CPU) Run(app risc.Application) (int, error) {
 		}
 		if flush {
 			for !m.writeUnit.isEmpty() || !m.writeBus.IsEmpty() {
+				m.ctx.VerifTick()
 				cycle++
 				m.writeUnit.cycle(m.ctx, m.writeBus)
 			}
